@@ -48,9 +48,9 @@ CHECKS = {
   note="decoder leniency towards non-canonical input is counted, not judged (the property is about encodings produced by the encoder). Four genuine defects found and fixed (known_findings.txt)."),
  "C12": dict(
   level="exploration", design="§5 C12", engine="refmodel",
-  technique="single-leaf perturbation monitoring of block identity (reflective perturbator over header/txs/evidence/commit, with and without re-derived hashes) + adversarial part-set schedules against a byte oracle and an independent audit-path rule",
+  technique="single-leaf perturbation monitoring of block identity (reflective perturbator over header/txs/evidence/commit, with and without re-derived hashes) + adversarial part-set schedules against a byte oracle and an independent audit-path rule (incl. signed headers with nil / empty / short roots); lane C12S: real ConsensusState objects fed conflicting, padded (block encoding followed by further bytes) and same-header-twin proposals, with an online held-block monitor (strict re-decode of every complete part set held in RoundState, identity and byte comparison with the proposer's encoding, locked block = block of the node's own precommit)",
   text="Generated signed blocks: every single-field perturbation must change the block hash or the part-set hash (or fail ValidateBasic when hashes are not re-derived); receiver-side part sets fed permutations, duplicates, truncated/index-shifted (negative and >= total)/proof-tampered/foreign parts accept only byte-identical parts and reassemble the proposer's bytes. Held on the blocks and schedules explored.",
-  note="no confidential transactions in generated blocks; fields covered only by the part-set hash (Header.Recover, Commit.BlockID) are counted as such, which the property allows."),
+  note="no confidential transactions in generated blocks; fields covered only by the part-set hash (Header.Recover, Commit.BlockID) are counted as such, which the property allows. Two genuine defects found through lane C12S and fixed (known_findings.txt): trailing bytes after the block accepted, lock on a same-header twin."),
  "C13": dict(
   level="fault_enumeration", design="§5 C13", engine="chainkit",
   technique="crash-point enumeration by fault injection at the database boundary of the real commit path (every store wrapped; the commit is cut after each individual write or batch, all forced orders of SaveBlock's concurrent writers, undo file cut accordingly), restart of a real node on the surviving bytes and a cross-store consistency oracle against a reference replica; pruning lane: generated chains, windows and validator-change heights with a read-back oracle over every retained height",
